@@ -6,8 +6,9 @@
    loop of the next one: they are elements of its [ds].  That the real clients carry no other state
    from one query to the next (the reusable receive buffer is re-sized and cut to the received
    length) is what the netlab history stream checks against this function. *)
-From RsdnsModel Require Import Base RecordSet Client.
-From RsdnsModel.Proofs Require Import ClientProofs.
+From RsdnsModel Require Import Base RecordSet Client Timed.
+From RsdnsModel.Spec Require Import Retry.
+From RsdnsModel.Proofs Require Import ClientProofs TimedProofs.
 Open Scope N_scope.
 Theorem C16_leftovers_ignored : forall std id qname qtype qclass pre post junk,
   Forall (fun x => accept_datagram std id qname qtype qclass x = Ok None) junk ->
@@ -46,3 +47,39 @@ Example C16_buffer_history_example :
   tq_run false 65535 (65535, 0) [(0, TqDone 120); (7, TqDropped); (0, TqDone 300); (3, TqFailed); (0, TqDropped); (1, TqDone 65535)] =
   [TqRan 65535; TqRan 65535; TqRan 65535; TqRan 65535; TqRan 65535; TqRan 65535].
 Proof. split; [apply tq_inv_new; reflexivity|vm_compute; reflexivity]. Qed.
+
+(* HISTORIES OVER TIME (Timed.v: [udp_history] — the queries of one client object share its UDP
+   socket, so what one exchange leaves in the queue — late answers, answers to other questions,
+   junk — is what the next one finds there).  For each of the four clients, every history of
+   queries (ids, names, types, classes, start instants) and every queue of arrivals in delivery
+   order, EVERY query of the history makes the transmissions, returns the result and takes the time
+   that Spec/Retry.v prescribes for a client whose socket delivers ONLY the datagrams answering this
+   very query (its id and its question, C12) out of what is in the queue when it starts: nothing
+   an earlier query left behind changes what it sends, what it returns or how long it takes, and
+   the bytes it returns are one of those answering datagrams.  (Exact timers; with late timers the
+   bounds of C15_retries_with_slack hold for every query of the history in the same way.) *)
+Theorem C16_history_refines_spec : forall std smol lifetime qt, qt_pos qt -> 0 < lifetime ->
+  forall qs queue lo, sorted_from lo queue ->
+  Forall2 (fun q o => exists queue_k pre, queue = pre ++ queue_k /\
+             o = outcome_of (spec_udp (good_of std q) (exchange_fuel lifetime) (tq_start q) lifetime qt
+                               (filter (answers (good_of std q)) queue_k)))
+          qs (udp_history std smol lifetime qt zero_jit qs queue).
+Proof. exact history_refines_spec. Qed.
+
+(* a concrete history on one client: query 1 ("a." A, id 0x1234, at 1000) times out after two
+   transmissions (lifetime 500, query timeout 300); its answer arrives late, at 1700; query 2 ("b."
+   A, id 0x1235, at 2000) finds that late answer in the queue, skips it, and returns its own
+   answer, which arrives at 2100; query 3 ("a." A again, id 0x1236, at 3000) finds nothing *)
+Definition ex_resp (id_hi id_lo name : byte) : list byte :=
+  [id_hi; id_lo; x81; x80; x00; x01; x00; x00; x00; x00; x00; x00; x01; name; x00; x00; x01; x00; x01]%byte.
+Definition ex_qs : list tquery :=
+  [ {| tq_id := 4660; tq_name := ["a"%byte; "."%byte]; tq_type := 1; tq_class := 1; tq_start := 1000 |};
+    {| tq_id := 4661; tq_name := ["b"%byte; "."%byte]; tq_type := 1; tq_class := 1; tq_start := 2000 |};
+    {| tq_id := 4662; tq_name := ["a"%byte; "."%byte]; tq_type := 1; tq_class := 1; tq_start := 3000 |} ].
+Definition ex_queue : list arrival := [(1700, ex_resp x12 x34 "a"); (2100, ex_resp x12 x35 "b")].
+Example C16_history_example :
+  (forall std, udp_history std false 500 (Some 300) zero_jit ex_qs ex_queue =
+     [ ([1000; 1300], Err Timeout, 1500);
+       ([2000], Ok (ex_resp x12 x35 "b", 33152), 2100);
+       ([3000; 3300], Err Timeout, 3500) ]) /\ sorted_from 0 ex_queue.
+Proof. split; [intros [|]; vm_compute; reflexivity|cbn; lia]. Qed.
